@@ -2,6 +2,7 @@ package rules
 
 import (
 	"fmt"
+	"go/constant"
 	"go/types"
 	"reflect"
 	"sort"
@@ -18,7 +19,7 @@ func init() {
 		ID:    "C20",
 		Title: "Bound BydbQL parameters are data, never syntax",
 		Decides: "no static call path leads from the binding / bound-transformation entry points back to the query parser; every grammar field tagged as a placeholder position (@Param) is read by both the one-shot binder traversal and the prepared-statement traversal; the per-position count bounds of the binder, the preparer and the literal-path validator agree; Bind's kind switch covers every placeholder kind and rejects a count mismatch and nil values before any slot is filled; " +
-			"the prepared (cached) template is not written during Bind/TransformBound and value nodes are read through the overlay resolver on the bound path; the prepared-statement cache is keyed by the exact query text.; on both binding paths the error of every resolve*Param call reaches the caller: in the world where it is non-nil no success return and no further loop iteration is reachable (the error value is followed through phis, so a shadowed copy nobody looks at is reported)",
+			"the prepared (cached) template is not written during Bind/TransformBound and value nodes are read through the overlay resolver on the bound path; the prepared-statement cache is keyed by the exact query text.; on both binding paths the error of every resolve*Param call reaches the caller: in the world where it is non-nil no success return and no further loop iteration is reachable (the error value is followed through phis, so a shadowed copy nobody looks at is reported); a bound timestamp is formatted with a layout that keeps the nanosecond field",
 		NotDecided: "equality of the produced request with the literal-quoted statement, parser correctness, time-format validation details.",
 		Technique:  "static call-graph unreachability, struct-tag vs field-read set agreement, constant-argument agreement across sibling traversals, local enum exhaustiveness, field-write confinement, SSA value identity of the cache key",
 		Run:        runC20,
@@ -348,6 +349,26 @@ func runC20(c *core.Ctx) {
 		if n < 3 {
 			r.Undecide(rule, ssax.FuncName(f), r.fpos(f), fmt.Sprintf("only %d cache-key uses found", n))
 		}
+	}
+
+	// a bound timestamp is spliced with full precision: the layout it is formatted with keeps the sub-second part
+	// (a quoted literal keeps it, so a bound parameter must too)
+	if f := r.fn("c20.time-param-precision", "pkg/bydbql", "resolveTimeParam"); f != nil {
+		rule := "c20.time-param-precision"
+		n := 0
+		for _, in := range ssax.Find(f, ssax.CallTo("(time.Time).Format")) {
+			n++
+			construct := fmt.Sprintf("%s: Format#%d keeps nanoseconds", ssax.FuncName(f), n)
+			k, ok := in.(*ssa.Call).Call.Args[1].(*ssa.Const)
+			if !ok || k.Value == nil {
+				r.Undecide(rule, construct, r.pos(in), "layout is not a constant")
+				continue
+			}
+			lay := constant.StringVal(k.Value)
+			r.Check(strings.Contains(lay, "999999999") || strings.Contains(lay, "000000000"), rule, construct, r.pos(in),
+				fmt.Sprintf("layout %q has no nanosecond field: TIME BETWEEN ? AND ? bound to 10:00:00.250 / .750 becomes [10:00:00, 10:00:00] while the same statement with quoted literals keeps the fractions — the bound statement is not the statement the literals denote", lay))
+		}
+		r.Floor(rule, 1)
 	}
 
 	// a parameter the resolver rejects makes the whole bind fail: on both binding paths the error of every
